@@ -23,6 +23,7 @@ use crate::{BatchRequest, ParseRequestError, Request};
 /// Parse a GraphQL request from a query string.
 pub fn parse_query_string(input: &str) -> Result<Request, ParseRequestError> {
     #[derive(Deserialize)]
+    #[serde(rename_all = "camelCase")]
     struct RequestSerde {
         #[serde(default)]
         pub query: String,
